@@ -54,6 +54,22 @@ Slice(a, hi, lo) ==
   ELSE IF hi < L THEN (a[2] \div 2^lo) % 2^(hi - lo + 1)
   ELSE (a[2] \div 2^lo) + ((a[1] % 2^(hi - L + 1)) * 2^(L - lo))
 
+\* plain shifts (also defined, with carry, in the shift section below)
+LSLwF(a, n) ==
+  IF n = 0 THEN a
+  ELSE IF n >= WW THEN Zero
+  ELSE IF n >= L THEN <<(a[2] * 2^(n - L)) % M, 0>>
+  ELSE <<((a[1] * 2^n) % M) + ((a[2] * 2^n) \div M), (a[2] * 2^n) % M>>
+LSRwF(a, n) ==
+  IF n = 0 THEN a
+  ELSE IF n >= WW THEN Zero
+  ELSE IF n >= L THEN <<0, a[1] \div 2^(n - L)>>
+  ELSE <<a[1] \div 2^n, (a[2] \div 2^n) + ((a[1] % 2^n) * 2^(L - n))>>
+\* word-valued fields
+MaskW(hi, lo)         == LSLwF(LSRwF(AllOnes, WW - (hi - lo + 1)), lo)
+ExtractW(w, hi, lo)   == WAnd(LSRwF(w, lo), LSRwF(AllOnes, WW - (hi - lo + 1)))
+InsertW(w, hi, lo, v) == WOr(WAnd(w, WNot(MaskW(hi, lo))), WAnd(LSLwF(v, lo), MaskW(hi, lo)))
+
 -----------------------------------------------------------------------------
 (* addition *)
 \* <<result, carry_out, overflow>> of a + b + cin
@@ -74,16 +90,8 @@ AddInt(a, n) == IF n >= 0 THEN Add(a, FromNat(n)) ELSE Sub(a, FromNat(-n))
 
 -----------------------------------------------------------------------------
 (* shifts; n is any Nat; the _C forms are for n >= 1 (as in the pseudocode) *)
-LSLw(a, n) ==
-  IF n = 0 THEN a
-  ELSE IF n >= WW THEN Zero
-  ELSE IF n >= L THEN <<(a[2] * 2^(n - L)) % M, 0>>
-  ELSE <<((a[1] * 2^n) % M) + ((a[2] * 2^n) \div M), (a[2] * 2^n) % M>>
-LSRw(a, n) ==
-  IF n = 0 THEN a
-  ELSE IF n >= WW THEN Zero
-  ELSE IF n >= L THEN <<0, a[1] \div 2^(n - L)>>
-  ELSE <<a[1] \div 2^n, (a[2] \div 2^n) + ((a[1] % 2^n) * 2^(L - n))>>
+LSLw(a, n) == LSLwF(a, n)
+LSRw(a, n) == LSRwF(a, n)
 \* a word with the top n bits set (0 <= n <= WW)
 TopMask(n) ==
   IF n = 0 THEN Zero
